@@ -419,3 +419,80 @@ Proof.
   destruct (access_every_schedule_l pip sh sched r _ H) as [A B]. split; [assumption|].
   eapply Forall_impl; [|exact B]. intros l Hl v Hv. unfold ac_ok in Hl. rewrite Hv in Hl. assumption.
 Qed.
+(* ------------------------------------------------------------------ composed: exact share under every schedule *)
+(* the target a pick returns, as a function of the cursor value it used ([slot ring x = Ok (pickv ring d x)]) *)
+Definition pickv (ring : list nat) (d : nat) (x : N) : nat := nth (N.to_nat (N.modulo x (N.of_nat (length ring)))) ring d.
+
+Lemma count_nat_perm : forall t a b, Permutation a b -> count_nat t a = count_nat t b.
+Proof. intros t a b P. induction P; cbn; try lia. Qed.
+Lemma consecutive_length : forall c j, length (consecutive c j) = j.
+Proof. intros. unfold consecutive. now rewrite map_length, seq_length. Qed.
+Lemma pickv_positions : forall ring d cs, map (pickv ring d) cs = map (fun p => nth p ring d) (positions (length ring) cs).
+Proof. intros. unfold positions, pickv. now rewrite map_map. Qed.
+
+(* rr_exact_share_every_schedule: fresh goroutines, ANY schedule, any split of the picks among them: when
+   k*len lookups have been performed (k full turns of the ring, no uint64 wrap inside the run) target t has
+   been returned exactly k x (its number of ring slots) times *)
+Theorem rr_exact_share_every_schedule_l : forall sched (ring : list nat) d c ts k t,
+  (c < two64)%N -> ring <> [] -> all_seen ts = [] ->
+  length (all_seen (snd (run rr_step_atomic sched c ts))) = k * length ring ->
+  (c + N.of_nat (k * length ring) <= two64)%N ->
+  count_nat t (map (pickv ring d) (all_seen (snd (run rr_step_atomic sched c ts)))) = k * count_nat t ring.
+Proof.
+  intros sched ring d c ts k t Hc Hr H0 Hl Hw.
+  destruct (rr_atomic_exact_l sched c ts Hc) as [j [P _]]. rewrite H0 in P. cbn [app] in P.
+  assert (Hj : j = k * length ring).
+  { apply Permutation_length in P. rewrite consecutive_length in P. lia. }
+  subst j. rewrite (count_nat_perm t _ _ (Permutation_map (pickv ring d) P)).
+  rewrite pickv_positions. now apply rr_exact_target_shares_l.
+Qed.
+
+(* any number of picks: between floor and ceil of the turns, times the slots *)
+Lemma count_prefix_le : forall (f : nat -> nat) t r L, r <= L ->
+  count_nat t (map f (seq 0 r)) <= count_nat t (map f (seq 0 L)).
+Proof.
+  intros f t r L H. replace L with (r + (L - r)) by lia. rewrite seq_app, map_app, count_nat_app. lia.
+Qed.
+
+Theorem rr_share_bounds_l : forall (ring : list nat) d c j t, ring <> [] -> (c + N.of_nat j <= two64)%N ->
+  (j / length ring) * count_nat t ring <= count_nat t (map (pickv ring d) (consecutive c j))
+  /\ count_nat t (map (pickv ring d) (consecutive c j)) <= (j / length ring + 1) * count_nat t ring.
+Proof.
+  intros ring d c j t Hr Hw. assert (HL : 0 < length ring) by (destruct ring; [congruence | cbn; lia]).
+  set (L := length ring) in *. rewrite pickv_positions. fold L. rewrite positions_consecutive by assumption.
+  rewrite map_map. set (s := N.to_nat (N.modulo c (N.of_nat L))).
+  assert (Hs : s < L) by (unfold s; rewrite N2Nat.inj_mod, Nat2N.id; apply Nat.mod_upper_bound; lia).
+  set (q := j / L). set (r := j mod L).
+  assert (Ej : j = q * L + r) by (unfold q, r; rewrite Nat.mul_comm; apply Nat.div_mod; lia).
+  assert (Hrr : r < L) by (unfold r; apply Nat.mod_upper_bound; lia).
+  clearbody q r s. subst L. rewrite Ej. rewrite seq_app, map_app, count_nat_app. cbn [Nat.add].
+  rewrite (picks_full_cycles ring d q s t Hs).
+  replace (seq (q * length ring) r) with (seq (q * length ring + 0) r) by (f_equal; lia). rewrite <- map_add_seq, map_map.
+  rewrite (map_ext _ (fun i => nth ((s + i) mod length ring) ring d)).
+  2:{ intros i. f_equal. replace (s + (q * length ring + i)) with (s + i + q * length ring) by lia. apply Nat.mod_add. lia. }
+  pose proof (count_prefix_le (fun i => nth ((s + i) mod length ring) ring d) t r (length ring) ltac:(lia)) as B.
+  rewrite (picks_one_cycle ring d s t Hs) in B.
+  split; lia.
+Qed.
+
+(* ... under every schedule *)
+Theorem rr_share_bounds_every_schedule_l : forall sched (ring : list nat) d c ts t,
+  (c < two64)%N -> ring <> [] -> all_seen ts = [] ->
+  let picks := all_seen (snd (run rr_step_atomic sched c ts)) in
+  (c + N.of_nat (length picks) <= two64)%N ->
+  (length picks / length ring) * count_nat t ring <= count_nat t (map (pickv ring d) picks)
+  /\ count_nat t (map (pickv ring d) picks) <= (length picks / length ring + 1) * count_nat t ring.
+Proof.
+  intros sched ring d c ts t Hc Hr H0 picks Hw. unfold picks in *.
+  destruct (rr_atomic_exact_l sched c ts Hc) as [j [P _]]. rewrite H0 in P. cbn [app] in P.
+  assert (Hj : length (all_seen (snd (run rr_step_atomic sched c ts))) = j).
+  { apply Permutation_length in P. now rewrite consecutive_length in P. }
+  rewrite Hj in *. rewrite (count_nat_perm t _ _ (Permutation_map (pickv ring d) P)).
+  now apply rr_share_bounds_l.
+Qed.
+
+Example rr_exact_share_every_schedule_nonvacuous :
+  let ts := snd (run rr_step_atomic [0; 1; 1; 0; 2; 1; 0; 2; 2] 7%N [rr_init 3; rr_init 3; rr_init 3]) in
+  all_seen [rr_init 3; rr_init 3; rr_init 3] = [] /\ length (all_seen ts) = 3 * 3
+  /\ count_nat 1 (map (pickv [0; 1; 1] 0) (all_seen ts)) = 3 * 2.
+Proof. vm_compute. repeat split. Qed.
